@@ -85,8 +85,12 @@ func envInt(name string, def int) int {
 
 func expandJobs(r HarnessRun, tier string) []job {
 	b := r.Quick
-	if tier == "thorough" && r.Thorough != nil {
-		b = r.Thorough
+	if tier == "thorough" {
+		if r.Thorough != nil {
+			b = r.Thorough
+		} else if _, ok := r.Quick["segs"]; ok {
+			b = deepen(r.Quick)
+		}
 	}
 	jobs := []job{{Harness: r.Name, Bounds: map[string]int{}}}
 	for k, v := range b {
